@@ -98,6 +98,18 @@ PayloadClauses(f, c, tree, m, evs) ==
         \cup (IF \E o \in files : o.size # X(o).size /\ X(o).type # "debian changelog" THEN {"DOC.file_size"} ELSE {})
   IN <<req, doc>>
 
+(* C13 (second half): entries addressed to ANOTHER packager stay in theirs.  The paths that only the foreign-addressed     *)
+(* entries (and their implied parents) would bring - the plan of the list with every tag erased minus the plan for f -  *)
+(* must not be in the payload of f.                                                                                       *)
+ObsPaths(f, evs) == { ObsRec(f, evs[i]).path : i \in Idx(evs, LAMBDA e : IsPayloadEv(f, e)) }
+ForeignLeak(f, c, tree, m, evs) ==
+  LET hasForeign == \E i \in 1..Len(c.entries) : c.entries[i].tag \notin {"", f}
+      cAll == [c EXCEPT !.entries = [i \in 1..Len(c.entries) |-> [c.entries[i] EXCEPT !.tag = ""]]]
+      pAll == PlanFor(cAll, tree, f)
+      own == { KeyPath(k) : k \in { x \in DOMAIN m : InPayload(f, m[x]) } }
+      all == { KeyPath(k) : k \in { x \in DOMAIN pAll[2] : InPayload(f, pAll[2][x]) } }
+  IN hasForeign /\ pAll[1] = "ok" /\ (ObsPaths(f, evs) \cap (all \ own)) # {}
+
 (* ---- C04: structure ------------------------------------------------------ *)
 OuterNames(evs) == [ i \in 1..Len(SelectSeq(evs, LAMBDA e : e.ev = "outer")) |-> SelectSeq(evs, LAMBDA e : e.ev = "outer")[i].name ]
 OuterEvs(evs) == SelectSeq(evs, LAMBDA e : e.ev = "outer")
